@@ -4,6 +4,7 @@
   translation with the same trace and result, and every Fun trace is a prefix of a Core trace.
 -/
 import Scc.Fun2Core.SemProg
+import Scc.Fun2Core.SemBack
 
 namespace Scc.Fun2Core.Sem
 open Scc
@@ -31,22 +32,24 @@ theorem tfv_main_cont (x : Core.Ident) (τ : Core.Ty) :
     tfvTerm (.mu .cns x τ (.exit (.var .prd x τ) τ)) [] = [] := by
   simp [tfvTerm, tfvStmt, bsetInsert, bsetRemove, bsetExtend, cmpBinding_refl]
 
-/-- the forward half for the two machines' own behaviour types -/
-theorem sem_forward {p : Fun.CheckedProgram} {q : Core.Prog} (hc : compileProg p = .ok q)
+/-- the two runs start in related states (or the Fun run is stuck at once: no `main`, wrong number
+of arguments) -/
+theorem sem_init {p : Fun.CheckedProgram} {q : Core.Prog} (hc : compileProg p = .ok q)
     (hp : progOk p = true) (hq : coreClosed q = true) (args : List (BitVec 64)) :
-    (∀ n, Finished (Fun.run p args n).res →
-      ∃ m r', Core.run q args m = ⟨(Fun.run p args n).out, r'⟩ ∧ ResMatch (Fun.run p args n).res r') ∧
-    (∀ n, ∃ m, (Fun.run p args n).out <+: (Core.run q args m).out) := by
+    (∀ n, (Fun.run p args n).out = [] ∧ ¬ Finished (Fun.run p args n).res ∧
+      (Fun.run p args n).res ≠ .outOfFuel) ∨
+    ∃ s S, (∀ n, Fun.run p args n = Fun.runFrom p n s []) ∧
+      (∀ m, Core.run q args m = Core.stepN q m S) ∧ S.out = [] ∧ R p q s S := by
   have X := ctx_of_compileProg hc hp hq
   obtain ⟨hdefsok, hnd, hmainprd⟩ := progOk_facts hp
   obtain ⟨hqc, hdefs⟩ := compileProg_defs hc
   unfold Fun.run Fun.initState
   cases hf : Fun.findDef p "main" with
-  | none => exact ⟨fun n h => h.elim, fun n => ⟨0, by simp⟩⟩
+  | none => exact .inl fun n => ⟨rfl, fun h => h.elim, fun h => by cases h⟩
   | some d =>
     simp only
     cases hb : Fun.bindAll (d.ctx.map (·.var)) (args.map .int) [] with
-    | none => exact ⟨fun n h => h.elim, fun n => ⟨0, by simp⟩⟩
+    | none => exact .inl fun n => ⟨rfl, fun h => h.elim, fun h => by cases h⟩
     | some env =>
       simp only
       obtain ⟨hdm, hname⟩ := findDef_mem hf
@@ -94,7 +97,53 @@ theorem sem_forward {p : Fun.CheckedProgram} {q : Core.Prog} (hc : compileProg p
           (.mk (cv := .mutilde ρ ⟨x0, 0⟩ (.exit (.var .prd ⟨x0, 0⟩ τ) τ)) rfl .main trivial
             (by rw [tfv_main_cont]; intro b hb; simp at hb) hτ)
           hbd (.refl _ _)
-      have hfw := fun n => chunkSim_forward (eval_sim X) n _ _ [] hR rfl
-      exact ⟨fun n => (hfw n).1, fun n => (hfw n).2⟩
+      exact .inr ⟨_, _, fun n => rfl, fun m => rfl, rfl, hR⟩
+
+/-- the forward half for the two machines' own behaviour types -/
+theorem sem_forward {p : Fun.CheckedProgram} {q : Core.Prog} (hc : compileProg p = .ok q)
+    (hp : progOk p = true) (hq : coreClosed q = true) (args : List (BitVec 64)) :
+    (∀ n, Finished (Fun.run p args n).res →
+      ∃ m r', Core.run q args m = ⟨(Fun.run p args n).out, r'⟩ ∧ ResMatch (Fun.run p args n).res r') ∧
+    (∀ n, ∃ m, (Fun.run p args n).out <+: (Core.run q args m).out) := by
+  rcases sem_init hc hp hq args with h | ⟨s, S, h1, h2, h3, hR⟩
+  · exact ⟨fun n hf => absurd hf (h n).2.1, fun n => ⟨0, by rw [(h n).1]; exact List.nil_prefix⟩⟩
+  · have X := ctx_of_compileProg hc hp hq
+    have hfw := fun n => chunkSim_forward (eval_sim X) n s S [] hR (by rw [h3]; rfl)
+    refine ⟨fun n => ?_, fun n => ?_⟩
+    · rw [h1 n]
+      intro hf
+      obtain ⟨m, r', hm, hr⟩ := (hfw n).1 hf
+      exact ⟨m, r', by rw [h2 m]; exact hm, hr⟩
+    · rw [h1 n]
+      obtain ⟨m, hm⟩ := (hfw n).2
+      exact ⟨m, by rw [h2 m]; exact hm⟩
+
+/-- the Fun run never gets stuck for a reason other than an arithmetic fault -/
+def FunSafe (p : Fun.CheckedProgram) (args : List (BitVec 64)) : Prop :=
+  ∀ n, (Fun.run p args n).res = .outOfFuel ∨ Finished (Fun.run p args n).res
+
+/-- the backward half, for runs of the Fun machine that do not get stuck for a reason other than an
+arithmetic fault -/
+theorem sem_backward {p : Fun.CheckedProgram} {q : Core.Prog} (hc : compileProg p = .ok q)
+    (hp : progOk p = true) (hq : coreClosed q = true) (args : List (BitVec 64))
+    (hsafe : FunSafe p args) :
+    (∀ m, (Core.run q args m).res ≠ .outOfFuel →
+      ∃ n r, Fun.run p args n = ⟨(Core.run q args m).out, r⟩ ∧ ResMatch r (Core.run q args m).res) ∧
+    (∀ m, ∃ n, (Core.run q args m).out <+: (Fun.run p args n).out) := by
+  rcases sem_init hc hp hq args with h | ⟨s, S, h1, h2, h3, hR⟩
+  · rcases hsafe 0 with h0 | h0
+    · exact absurd h0 (h 0).2.2
+    · exact absurd h0 (h 0).2.1
+  · have X := ctx_of_compileProg hc hp hq
+    have hs : Safe p s [] := fun n => by rw [← h1 n]; exact hsafe n
+    have hbw := fun m => chunkSim_backward (eval_sim X) m _ s S [] rfl hR (by rw [h3]; rfl) hs
+    refine ⟨fun m => ?_, fun m => ?_⟩
+    · rw [h2 m]
+      intro hf
+      obtain ⟨n, r, hn, hr⟩ := (hbw m).1 hf
+      exact ⟨n, r, by rw [h1 n]; exact hn, hr⟩
+    · rw [h2 m]
+      obtain ⟨n, hn⟩ := (hbw m).2
+      exact ⟨n, by rw [h1 n]; exact hn⟩
 
 end Scc.Fun2Core.Sem
